@@ -489,6 +489,9 @@ package daemonset
   at call(adaptObject).after set adapted := (= $result1 vnil)
   at call(OnCreate) assert [foreign-objects-are-skipped] adapted
   at call(OnCreate) assert [same-object] (= $0 {obj})
+  at call(OnUpdate) assert [opt:the-create-adapter-calls-no-other-callback] false
+  at call(OnDelete) assert [opt:the-create-adapter-calls-no-other-callback] false
+  at call(OnInitialize) assert [opt:the-create-adapter-calls-no-other-callback] false
 @*/
 /*@ func types/daemonset.NewMonitor$3
   props C20 C16
@@ -498,6 +501,9 @@ package daemonset
   at call(adaptObject).after set adapted := (= $result1 vnil)
   at call(OnUpdate) assert [foreign-objects-are-skipped] adapted
   at call(OnUpdate) assert [same-object] (= $0 {obj})
+  at call(OnCreate) assert [opt:the-update-adapter-calls-no-other-callback] false
+  at call(OnDelete) assert [opt:the-update-adapter-calls-no-other-callback] false
+  at call(OnInitialize) assert [opt:the-update-adapter-calls-no-other-callback] false
 @*/
 /*@ func types/daemonset.NewMonitor$4
   props C20 C16
@@ -507,6 +513,9 @@ package daemonset
   at call(adaptObject).after set adapted := (= $result1 vnil)
   at call(OnDelete) assert [foreign-objects-are-skipped] adapted
   at call(OnDelete) assert [same-object] (= $0 {obj})
+  at call(OnCreate) assert [opt:the-delete-adapter-calls-no-other-callback] false
+  at call(OnUpdate) assert [opt:the-delete-adapter-calls-no-other-callback] false
+  at call(OnInitialize) assert [opt:the-delete-adapter-calls-no-other-callback] false
 @*/
 
 /*@ func types/daemonset.NewClient
